@@ -376,9 +376,9 @@ func oracle(c Case) (evid.Info, error) {
 }
 
 func TestC03Generated(t *testing.T) {
-	evid.Prop(t, "gen", evid.R.N(1500, 12000), genCaseDefault, oracle)
+	evid.Prop(t, "gen", evid.R.N(2500, 12000), genCaseDefault, oracle)
 }
 
 func TestC03Lowerings(t *testing.T) {
-	evid.Prop(t, "lowerings", evid.R.N(1000, 8000), genCaseLowerings, oracle)
+	evid.Prop(t, "lowerings", evid.R.N(4000, 16000), genCaseLowerings, oracle)
 }
